@@ -614,6 +614,8 @@ func (s *mState) runFrom(cur *mFunc, in *instruction) int {
 			}
 		case xmmUnaryRmR, xmmMovRM, gprToXmm, xmmToGpr:
 			s.xmmMove(in)
+		case xmmRmR, xmmRmiReg, xmmRmRImm:
+			s.xmmVec(in)
 		case push64:
 			s.push(s.src(&in.op1, true))
 		case pop64:
@@ -718,6 +720,243 @@ func (s *mState) runFrom(cur *mFunc, in *instruction) int {
 }
 
 func xi(v regalloc.VReg) int { return int(v.RealReg()) - int(xmm0) }
+
+// ---- a subset of the SSE/SSE4.1 vector instructions (what the v128 program family T6 compiles to)
+
+// lanes applies f lane-wise to two 128-bit values split into lanes of the given width.
+func lanes(a, b [2]uint64, bits uint, f func(x, y uint64) uint64) [2]uint64 {
+	if bits == 64 {
+		return [2]uint64{f(a[0], b[0]), f(a[1], b[1])}
+	}
+	var out [2]uint64
+	mask := uint64(1)<<bits - 1
+	for h := 0; h < 2; h++ {
+		for sh := uint(0); sh < 64; sh += bits {
+			out[h] |= (f((a[h]>>sh)&mask, (b[h]>>sh)&mask) & mask) << sh
+		}
+	}
+	return out
+}
+
+func sextLane(x uint64, bits uint) uint64 { return uint64(int64(x<<(64-bits)) >> (64 - bits)) }
+
+// xmmSrc reads a 128-bit source operand (register, or memory for the packed forms).
+func (s *mState) xmmSrc(o *operand) [2]uint64 {
+	if o.kind == operandKindMem {
+		a := s.addr(o.addressMode())
+		return [2]uint64{s.loadMem(a, 8), s.loadMem(a+8, 8)}
+	}
+	return s.xmm[xi(o.reg())]
+}
+
+func (s *mState) xmmVec(in *instruction) {
+	op := sseOpcode(in.u1)
+	switch in.kind {
+	case xmmRmR:
+		d := xi(in.op2.reg())
+		if d < 0 || d >= 16 {
+			s.unsupported("xmm destination")
+			return
+		}
+		dst := s.xmm[d]
+		switch op {
+		case sseOpcodeMovsd: // register form merges the low quadword; memory form loads it and zeroes the rest
+			if in.op1.kind == operandKindMem {
+				s.xmm[d] = [2]uint64{s.loadMem(s.addr(in.op1.addressMode()), 8), 0}
+			} else {
+				s.xmm[d][0] = s.xmm[xi(in.op1.reg())][0]
+			}
+			return
+		case sseOpcodeMovss:
+			if in.op1.kind == operandKindMem {
+				s.xmm[d] = [2]uint64{s.loadMem(s.addr(in.op1.addressMode()), 4), 0}
+			} else {
+				s.xmm[d][0] = dst[0]&^0xffffffff | s.xmm[xi(in.op1.reg())][0]&0xffffffff
+			}
+			return
+		case sseOpcodeMovlhps: // dst.hi = src.lo
+			s.xmm[d][1] = s.xmmSrc(&in.op1)[0]
+			return
+		}
+		src := s.xmmSrc(&in.op1)
+		add := func(x, y uint64) uint64 { return x + y }
+		sub := func(x, y uint64) uint64 { return x - y } // dst - src: lanes(dst, src, ...)
+		switch op {
+		case sseOpcodePand:
+			s.xmm[d] = [2]uint64{dst[0] & src[0], dst[1] & src[1]}
+		case sseOpcodePor:
+			s.xmm[d] = [2]uint64{dst[0] | src[0], dst[1] | src[1]}
+		case sseOpcodePxor:
+			s.xmm[d] = [2]uint64{dst[0] ^ src[0], dst[1] ^ src[1]}
+		case sseOpcodePandn: // dst = NOT(dst) AND src
+			s.xmm[d] = [2]uint64{^dst[0] & src[0], ^dst[1] & src[1]}
+		case sseOpcodePcmpeqb, sseOpcodePcmpeqw, sseOpcodePcmpeqd, sseOpcodePcmpeqq:
+			bits := map[sseOpcode]uint{sseOpcodePcmpeqb: 8, sseOpcodePcmpeqw: 16, sseOpcodePcmpeqd: 32, sseOpcodePcmpeqq: 64}[op]
+			s.xmm[d] = lanes(dst, src, bits, func(x, y uint64) uint64 {
+				var r uint64
+				if x == y {
+					r = ^uint64(0)
+				}
+				return r
+			})
+		case sseOpcodePaddb:
+			s.xmm[d] = lanes(dst, src, 8, add)
+		case sseOpcodePaddw:
+			s.xmm[d] = lanes(dst, src, 16, add)
+		case sseOpcodePaddd:
+			s.xmm[d] = lanes(dst, src, 32, add)
+		case sseOpcodePaddq:
+			s.xmm[d] = lanes(dst, src, 64, add)
+		case sseOpcodePsubb:
+			s.xmm[d] = lanes(dst, src, 8, sub)
+		case sseOpcodePsubw:
+			s.xmm[d] = lanes(dst, src, 16, sub)
+		case sseOpcodePsubd:
+			s.xmm[d] = lanes(dst, src, 32, sub)
+		case sseOpcodePsubq:
+			s.xmm[d] = lanes(dst, src, 64, sub)
+		default:
+			s.unsupported("sse instruction " + in.String())
+		}
+	case xmmRmiReg: // packed shifts: the count is an immediate or the low quadword of an xmm register / memory operand
+		d := xi(in.op2.reg())
+		var cnt uint64
+		switch in.op1.kind {
+		case operandKindImm32:
+			cnt = uint64(in.op1.imm32())
+		case operandKindMem:
+			cnt = s.loadMem(s.addr(in.op1.addressMode()), 8)
+		default:
+			cnt = s.xmm[xi(in.op1.reg())][0]
+		}
+		var bits uint
+		var kind int // 0 shl, 1 shr logical, 2 shr arithmetic
+		switch op {
+		case sseOpcodePsllw:
+			bits, kind = 16, 0
+		case sseOpcodePslld:
+			bits, kind = 32, 0
+		case sseOpcodePsllq:
+			bits, kind = 64, 0
+		case sseOpcodePsrlw:
+			bits, kind = 16, 1
+		case sseOpcodePsrld:
+			bits, kind = 32, 1
+		case sseOpcodePsrlq:
+			bits, kind = 64, 1
+		case sseOpcodePsraw:
+			bits, kind = 16, 2
+		case sseOpcodePsrad:
+			bits, kind = 32, 2
+		default:
+			s.unsupported("sse instruction " + in.String())
+			return
+		}
+		over := cnt >= uint64(bits) // hardware does not mask the count: logical shifts give 0, arithmetic ones the sign
+		c := uint(cnt & 63)
+		s.xmm[d] = lanes(s.xmm[d], [2]uint64{}, bits, func(x, _ uint64) uint64 {
+			var r uint64
+			switch kind {
+			case 0:
+				r = x << c
+				if over {
+					r = 0
+				}
+			case 1:
+				r = x >> c
+				if over {
+					r = 0
+				}
+			default:
+				sx := sextLane(x, bits)
+				r = uint64(int64(sx) >> c)
+				if over {
+					r = uint64(int64(sx) >> 63)
+				}
+			}
+			return r
+		})
+	case xmmRmRImm:
+		imm := uint(in.u2)
+		switch op {
+		case sseOpcodePextrb, sseOpcodePextrw, sseOpcodePextrd, sseOpcodePextrq: // op1 xmm -> op2 gpr, zero-extended
+			v := s.xmm[xi(in.op1.reg())]
+			var bits uint
+			switch op {
+			case sseOpcodePextrb:
+				bits = 8
+			case sseOpcodePextrw:
+				bits = 16
+			case sseOpcodePextrd:
+				bits = 32
+			default:
+				bits = 64
+			}
+			per := 64 / bits
+			lane := imm % (2 * per)
+			x := v[lane/per] >> ((lane % per) * bits)
+			if bits < 64 {
+				x &= uint64(1)<<bits - 1
+			}
+			s.setReg(in.op2.reg(), x, true)
+		case sseOpcodePinsrb, sseOpcodePinsrw, sseOpcodePinsrd, sseOpcodePinsrq: // op1 gpr/mem -> lane of op2 xmm
+			var bits uint
+			switch op {
+			case sseOpcodePinsrb:
+				bits = 8
+			case sseOpcodePinsrw:
+				bits = 16
+			case sseOpcodePinsrd:
+				bits = 32
+			default:
+				bits = 64
+			}
+			var x uint64
+			if in.op1.kind == operandKindMem {
+				x = s.loadMem(s.addr(in.op1.addressMode()), uint64(bits/8))
+			} else {
+				x = s.reg(in.op1.reg())
+			}
+			d := xi(in.op2.reg())
+			per := 64 / bits
+			lane := imm % (2 * per)
+			sh := (lane % per) * bits
+			if bits == 64 {
+				s.xmm[d][lane] = x
+			} else {
+				mask := (uint64(1)<<bits - 1) << sh
+				s.xmm[d][lane/per] = s.xmm[d][lane/per]&^mask | (x<<sh)&mask
+			}
+		case sseOpcodePshufd: // dst dword i = src dword imm[2i+1:2i]
+			src := s.xmmSrc(&in.op1)
+			dw := func(k uint) uint64 { return (src[k/2] >> ((k % 2) * 32)) & 0xffffffff }
+			d := xi(in.op2.reg())
+			s.xmm[d] = [2]uint64{dw(imm&3) | dw((imm>>2)&3)<<32, dw((imm>>4)&3) | dw((imm>>6)&3)<<32}
+		case sseOpcodeInsertps: // dst dword imm[5:4] = src dword imm[7:6] (register) / the m32 (memory); then zero mask imm[3:0]
+			d := xi(in.op2.reg())
+			var x uint64
+			if in.op1.kind == operandKindMem {
+				x = s.loadMem(s.addr(in.op1.addressMode()), 4)
+			} else {
+				src := s.xmm[xi(in.op1.reg())]
+				k := (imm >> 6) & 3
+				x = (src[k/2] >> ((k % 2) * 32)) & 0xffffffff
+			}
+			k := (imm >> 4) & 3
+			sh := (k % 2) * 32
+			v := s.xmm[d]
+			v[k/2] = v[k/2]&^(uint64(0xffffffff)<<sh) | x<<sh
+			for z := uint(0); z < 4; z++ {
+				if imm&(1<<z) != 0 {
+					v[z/2] &^= uint64(0xffffffff) << ((z % 2) * 32)
+				}
+			}
+			s.xmm[d] = v
+		default:
+			s.unsupported("sse instruction " + in.String())
+		}
+	}
+}
 
 // xmmMove: the data-movement subset of the SSE instructions (loads, stores, register moves, gpr<->xmm). Arithmetic on
 // XMM registers is not modelled (programs that need it are reported as unsupported).
@@ -851,11 +1090,14 @@ func vCompareMachine(set string, i int) {
 	if mem {
 		pages := verifrt.U32("pages")
 		verifrt.Assume(pages <= 65536)
+		if set == "T6" {
+			verifrt.Assume(pages <= 2) // the SIMD family is about lanes, not about memory sizes (those are C02's)
+		}
 		size := uint64(pages) << 16
 		memI = verifrt.Bytes("mem", size)
 		w.SetMem(verifrt.Bytes("mem", size), 65536)
 	}
-	names := []string{"a0", "a1", "a2", "a3"}
+	names := []string{"a0", "a1", "a2", "a3", "a4"}
 	args := make([]uint64, len(params))
 	for k, t := range params {
 		v := verifrt.U64(names[k])
@@ -934,6 +1176,13 @@ func VerifC01_L2_T3() {
 	_, _, _, _, _, _, n := frontend.VProgram("T3", 0)
 	vCompareMachine("T3", verifrt.Choose("prog", n))
 }
+
+// VerifC05_L2_SIMD: a subset of the v128 instructions (bitwise, integer add/sub, shifts with run-time and constant counts
+// incl. counts at and beyond the lane width, lane insert/extract incl. a scalar fused from a load) compiled by the real
+// front end and amd64 back end; the machine-level evaluator (SSE subset) against the interpreter for all operand values.
+// Vectors are built from and returned as pairs of i64.
+//verif:opts split=part:8 obl-timeout=240000
+func VerifC05_L2_SIMD() { vCompareMachine("T6", vFamilyPart("T6", 8)) }
 
 func vFamilyPart(set string, parts int) int {
 	_, _, _, _, _, _, total := frontend.VProgram(set, 0)
